@@ -125,6 +125,18 @@ fn gen_case(tr: &mut Trace, idx: u64, subseed: u64, thorough: bool, kind: &str, 
         rs.push((n, 0));
         rs.push((rng.below(n as u64 + 1) as usize, 0));
         for (k, e) in rs { ex.op_resume(tr, k, e); }
+        // the same through a REAL server session (bootstrap::init_hq_server over TCP): a cut inside the FIRST record, a random
+        // torn tail, the whole journal; only prefixes without allocation queues
+        if actions > 0 && kind != "sim" {
+            let no_queue = |k: usize| !recs[..k].iter().any(|r| matches!(r, Rec::QNew(_)));
+            let mut bs: Vec<(usize, u64)> = vec![];
+            let first = ex.boundary(1) - ex.boundary(0);
+            if first > 1 { bs.push((0, 1 + rng.below(first - 1))); }
+            if let Some((k, e)) = cuts.first().copied() { bs.push((k, e)); }
+            bs.push((n, 0));
+            if thorough { bs.push((rng.below(n as u64 + 1) as usize, 0)); }
+            for (k, e) in bs { if no_queue(k) { ex.op_boot(tr, k, e); } }
+        }
     }
     if thorough && kind == "producible" {
         // offsets inside the header: the reader refuses the file (observation, no monitor)
@@ -205,6 +217,7 @@ fn replay(tr: &mut Trace) {
                     },
                     ["restore", k, e] => ex.op_restore(tr, k.parse().unwrap(), e.parse().unwrap()),
                     ["resume", k, e, ..] => ex.op_resume(tr, k.parse().unwrap(), e.parse().unwrap()),
+                    ["boot", k, e, ..] => ex.op_boot(tr, k.parse().unwrap(), e.parse().unwrap()),
                     ["prune", k, lj, lw] => ex.op_prune(tr, k.parse().unwrap(), &u32s(lj), &u32s(lw)),
                     ["papp", r @ ..] => match Rec::parse(r) {
                         Some(rec) => ex.op_papp(tr, rec),
